@@ -152,7 +152,8 @@ func (C03) Run(c core.Case, ctx *core.Ctx) []core.Violation {
 			}
 			switch {
 			case !res.Returned:
-				ctx.St.Inc("cross_c06_panic_or_divergence")
+				// "Call succeeds": a call that does not return has not
+				out = append(out, core.Violation{Class: res.PanicClass, Site: res.PanicSite, Detail: "every parameter has an exactly keyed value but Call did not return: " + trunc(res.PanicDetail)})
 			case res.Err != nil:
 				add("exact-match-call-failed", fmt.Sprintf("every parameter has an exactly keyed value but Call failed (%s): %.200s", res.ErrKind, res.Err.Error()))
 			default:
